@@ -47,7 +47,7 @@ def run_cut(ident, tier, seed, res):
     rnd = random.Random(seed * 1000003 + hash(ident) % 65536)
     minlen = 3 if ident.startswith("4076") else 2
     for st in structs.structures(ident, tier, seed):
-        if tier == 'quick' and st.get('nsat', 0) >= 2 and st.get('maskmode') != 'value':
+        if tier == 'quick' and st.get('nsat', 0) >= 2 and st.get('maskmode') not in ('value', 'high'):
             continue      # quick: symbolic mask positions only up to 1x1 for truncation (positions do not move field boundaries)
         try:
             d0 = msgdrv.Directed(ident, structs.chooser(st), spare=0)
